@@ -2,8 +2,11 @@ package main
 
 import (
 	"fmt"
+	"reflect"
 	"sort"
 	"strings"
+
+	"sigs.k8s.io/karpenter/pkg/controllers/state"
 
 	"verifharness/kit"
 )
@@ -16,6 +19,7 @@ type profile struct {
 	Relabel     bool // a NodeClaim/Node may change its nodepool label
 	SameNodeRe  bool // pods may be re-created under the same name on the same node with different attributes
 	Untrackable bool // a node name the cache tracks may come back in an untrackable form
+	DanglingPV  bool // pods may mount a claim bound to a volume that does not exist (yet): GetVolumes fails
 	VolHeavy    bool // every pod mounts claims of one CSI driver and sits on one node (rebuilds of the volume union)
 }
 
@@ -29,8 +33,9 @@ type gen struct {
 	bound                  map[string]bool // pod names that were ever written bound to a node
 	nNodes, nClaims, nPods int
 	count                  func(string)
-	histOK                 bool            // the premise hist_ok of the theorem, mirrored on the real cache
-	markFail               string          // a Mark/Unmark call that did not reach a tracked id
+	histOK                 bool   // the premise hist_ok of the theorem, mirrored on the real cache
+	markFail               string // a Mark/Unmark call that did not reach a tracked id
+	pre                    state.VerifC11Dump
 	nominated              map[string]bool // provider ids nominated while their entry has existed ever since
 	claimPool              map[string]string
 	stale                  bool   // some pod delivery had the shape stale_rewrite
@@ -54,7 +59,7 @@ func (g *gen) staleRewrite(o Op) bool {
 	if !ok || p.Terminal || p.Node == "" {
 		return false
 	}
-	d := g.w.cluster.VerifC11Dump()
+	d := g.pre
 	sn, ok := d.Nodes[d.NodeNameToPID[p.Node]]
 	if !ok {
 		return false
@@ -92,7 +97,7 @@ func (g *gen) opOK(o Op) {
 			g.histOK, g.histWhy = false, why
 		}
 	}
-	d := g.w.cluster.VerifC11Dump()
+	d := g.pre
 	nodes := map[string]*NodeV{}
 	for k, v := range g.w.nodes {
 		nodes[k] = v
@@ -168,6 +173,7 @@ func (g *gen) podsSettled() bool {
 }
 
 func (g *gen) emit(o Op) {
+	g.pre = g.w.cluster.VerifC11Dump() // one dump of the cache before the operation, shared by the mirrors below
 	g.branch(o)
 	g.opOK(o)
 	if g.staleRewrite(o) {
@@ -176,6 +182,15 @@ func (g *gen) emit(o Op) {
 	}
 	g.ops = append(g.ops, o)
 	g.w.apply(o)
+	if o.Kind == "Tick" {
+		// the nomination window has passed: nobody is nominated any more
+		g.nominated = map[string]bool{}
+		for id, sn := range g.w.cluster.VerifC11Dump().Nodes {
+			if sn.Nominated && g.markFail == "" {
+				g.markFail = "provider id " + id + " is still nominated an hour after the nomination"
+			}
+		}
+	}
 	if o.Kind == "Nominate" || strings.HasPrefix(o.Kind, "Deliver") {
 		// nomination is carried over by every update and lost only when the entry goes away
 		d := g.w.cluster.VerifC11Dump()
@@ -409,6 +424,7 @@ func (g *gen) stepClaim() {
 		if g.r.Chance(1, 3) {
 			v.Taints, v.Startup = []string{kit.Pick(g.r, taintPool)}, []string{"t1:NoSchedule"}
 		}
+		v.AllocLess = g.r.Bool()
 		if !g.r.Chance(1, 2) || (g.dirty["C/"+name] && !g.prof.PidReuse) {
 			v.PID = truePID // a name whose deletion the cache has not seen yet comes back launched
 		}
@@ -482,6 +498,9 @@ func (g *gen) randomPod(name, node string) *PodV {
 	for k := g.r.Intn(3); k > 0; k-- {
 		v.Vols = append(v.Vols, kit.Pick(g.r, volPool))
 	}
+	if g.prof.DanglingPV && g.r.Chance(1, 2) {
+		v.Vols = append(v.Vols, "pvc-z")
+	}
 	if g.prof.VolHeavy {
 		v.Vols = []string{kit.Pick(g.r, drv1Pool)}
 		if g.r.Chance(1, 3) {
@@ -497,6 +516,7 @@ func (g *gen) randomPod(name, node string) *PodV {
 	}
 	v.BadCost = v.DelCost == nil && g.r.Chance(1, 10)
 	v.Init, v.Overhead, v.Ephemeral = g.r.Chance(1, 6), g.r.Chance(1, 8), g.r.Chance(1, 8)
+	v.PrefAnti = !v.AntiAff && g.r.Chance(1, 6)
 	for k, on := range map[string]bool{"init-container": v.Init, "overhead": v.Overhead, "ephemeral-volume": v.Ephemeral, "unparsable-deletion-cost": v.BadCost, "owner-not-daemonset": v.Owner != ""} {
 		if on {
 			g.count("field:pod:" + k)
@@ -628,6 +648,10 @@ func (g *gen) stepMark() {
 }
 
 func (g *gen) stepNominate() {
+	if g.r.Chance(1, 6) {
+		g.emit(Op{Kind: "Tick"})
+		return
+	}
 	d := g.w.cluster.VerifC11Dump()
 	ids := append(kit.SortedKeys(d.Nodes), "nope")
 	g.emit(Op{Kind: "Nominate", Name: kit.Pick(g.r, ids)})
@@ -647,6 +671,50 @@ func (g *gen) stepForeign() {
 		g.emit(Op{Kind: "DelForeignClaim", Name: "cf"})
 	}
 	g.emit(Op{Kind: "DeliverForeignClaim", Name: "cf"})
+}
+
+// stepFault: a reconcile during which one API read fails. Nothing may change in the cache.
+func (g *gen) stepFault() {
+	before := g.w.cluster.VerifC11Dump()
+	var o Op
+	switch g.r.Intn(4) {
+	case 0:
+		if n := g.existingNodeNames(); len(n) > 0 {
+			o = Op{Kind: "FaultDeliverNode", Name: kit.Pick(g.r, n), Tag: "list-pods"}
+		}
+	case 1:
+		if n := g.existingNodeNames(); len(n) > 0 {
+			o = Op{Kind: "FaultDeliverNode", Name: kit.Pick(g.r, n), Tag: "get-node"}
+		}
+	case 2:
+		if p := kit.SortedKeys(g.w.pods); len(p) > 0 {
+			o = Op{Kind: "FaultDeliverPod", Name: kit.Pick(g.r, p), Tag: "get-pod"}
+		}
+	default:
+		// a failing volume lookup is only reached from updateForPod: the pod must be live, bound and its node tracked
+		for _, name := range kit.SortedKeys(g.w.pods) {
+			p := g.w.pods[name]
+			if _, tracked := before.NodeNameToPID[p.Node]; p.Terminal || p.Node == "" || !tracked {
+				continue
+			}
+			for _, v := range p.Vols {
+				switch v {
+				case "pvc-d", "pvc-j", "pvc-k":
+					o = Op{Kind: "FaultDeliverPod", Name: name, Tag: "get-pv"}
+				case "pvc-a", "pvc-b", "pvc-c", "pvc-h":
+					o = Op{Kind: "FaultDeliverPod", Name: name, Tag: kit.Pick(g.r, []string{"get-sc", "get-pvc"})}
+				}
+			}
+		}
+	}
+	if o.Kind == "" {
+		return
+	}
+	g.emit(o)
+	g.count("fault:" + o.Tag)
+	if after := g.w.cluster.VerifC11Dump(); !reflect.DeepEqual(before, after) && g.markFail == "" {
+		g.markFail = fmt.Sprintf("%s %s with failing read %q changed the cache", o.Kind, o.Name, o.Tag)
+	}
 }
 
 func (g *gen) history(n int) {
@@ -682,6 +750,14 @@ func (g *gen) history(n int) {
 			g.stepNominate()
 		case c < 95:
 			g.stepForeign()
+		case c < 96:
+			g.stepFault()
+		case c < 100 && g.prof.DanglingPV:
+			if g.w.pvLate {
+				g.emit(Op{Kind: "DeletePV"})
+			} else {
+				g.emit(Op{Kind: "CreatePV"})
+			}
 		default:
 			g.stepMark()
 		}
@@ -689,6 +765,45 @@ func (g *gen) history(n int) {
 			return
 		}
 	}
+}
+
+// volTail (profile volheavy): four pods with claims of one CSI driver on one tracked node, then two pod deletions
+// delivered through the pod path with no Node reconcile in between (VolumeUsage.DeletePod rebuilds the union twice).
+func (g *gen) volTail() {
+	d := g.w.cluster.VerifC11Dump()
+	node := ""
+	for _, n := range g.existingNodeNames() {
+		if _, ok := d.NodeNameToPID[n]; ok && trackable(g.w.nodes[n]) && !g.dirty["N/"+n] {
+			node = n
+			break
+		}
+	}
+	if node == "" {
+		return
+	}
+	for i, pvc := range drv1Pool {
+		name := fmt.Sprintf("p%d", i)
+		if _, ok := g.w.pods[name]; ok {
+			g.emit(Op{Kind: "DelPod", Name: name})
+		}
+		g.emit(Op{Kind: "DeliverPod", Name: name})
+		g.emit(Op{Kind: "SetPod", Pod: &PodV{Name: name, Node: node, CPU: 100, Mem: 64, Vols: []string{pvc}}})
+		g.emit(Op{Kind: "DeliverPod", Name: name})
+	}
+	first := g.r.Intn(4)
+	second := (first + 1 + g.r.Intn(3)) % 4
+	for _, i := range []int{first, second} {
+		name := fmt.Sprintf("p%d", i)
+		if g.r.Bool() {
+			g.emit(Op{Kind: "DelPod", Name: name})
+		} else {
+			v := *g.w.pods[name]
+			v.Terminal = true
+			g.emit(Op{Kind: "SetPod", Pod: &v})
+		}
+		g.emit(Op{Kind: "DeliverPod", Name: name})
+	}
+	g.count("br:VolumeUsage.DeletePod:twice-without-node-reconcile")
 }
 
 // weakClose delivers every key that changed since its last delivery once, in random order
